@@ -89,6 +89,11 @@ class WindowedBinaryAUROC(Metric[torch.Tensor]):
             torch.zeros(self.num_tasks, self.max_num_samples, device=self.device),
         )
 
+    def reset(self: TAUROC) -> TAUROC:
+        super().reset()
+        self.next_inserted = 0
+        return self
+
     @torch.inference_mode()
     # pyre-ignore[14]: inconsistent override on *_:Any, **__:Any
     def update(
